@@ -159,7 +159,7 @@ def _need(cond, why):
 def apply(m, op, operand=None):
     k = op[0]
     if k in ('map', 'parmap', 'apply_eager'):
-        return m.clone(entries=[(a, (op[1], v)) for a, v in m.entries])
+        return m.clone(entries=[(a, (op[1], v)) for a, v in m.entries], batched=False)
     if k == 'filter':
         mod = op[1]
         if not m.finite and not any(sid(v) % mod != 0 for v in m.values):
@@ -372,7 +372,8 @@ def apply(m, op, operand=None):
         if not m.finite:
             raise Skip
         return m.clone(entries=[(a, (op[1], v)) for a, v in m.entries], sized=False,
-                       indexable=False, listable=False, bykey=False, ordered=False)
+                       indexable=False, listable=False, bykey=False, ordered=False,
+                       batched=False)
     raise ValueError(f'unknown op {op!r}')
 
 
